@@ -25,6 +25,7 @@ func init() {
 			{ID: "C07-R5", Doc: "decoding reader: buffered remainder drained before next batch (shared)", Run: c07r5},
 			{ID: "C07-R6", Doc: "decoding reader: batch decoded into a frame of exactly the decoded, validated length (shared)", Run: c07r6},
 			{ID: "C10-R4", Doc: "merge/cogroup/reduce: heap repaired after every cursor move (shared)", Run: c10r4},
+			{ID: "C10-R8", Doc: "a merge heap is heapified after it has been filled (shared)", Run: c10r8},
 			{ID: "C10-R6", Doc: "reduce reader: combined value stored before refill (shared)", Run: c10r6},
 		},
 	})
@@ -433,6 +434,17 @@ func c17r4(c *RC) {
 			return true
 		})
 		c.Check(adv, q+"|advances-on-EOF", pr.Pos(loop.Pos()), "the multi-reader no longer drops the exhausted reader from its queue")
+		// a real error is made sticky before it is returned (stickyFirst tests the field on entry)
+		{
+			stored := false
+			ast.Inspect(loop, func(n ast.Node) bool {
+				if a, ok := n.(*ast.AssignStmt); ok && len(a.Lhs) == 1 && len(a.Rhs) == 1 && canon(fn, a.Lhs[0]) == "$recv.err" && expr(a.Rhs[0]) == errV {
+					stored = true
+				}
+				return true
+			})
+			c.Check(stored, q+"|error-is-made-sticky", pr.Pos(loop.Pos()), "the multi-reader returns an input's error without keeping it: a later Read goes on to the next rows (or readers) as if nothing had happened, and rows after the failure are delivered")
+		}
 		// ... and only then: on every path to the statement that drops the head
 		// reader, its read is known to have returned the end-of-stream sentinel
 		var advStmt *ast.AssignStmt
